@@ -72,22 +72,39 @@ def getData (b : SecBuf) : SecBuf :=
 def freeData (b : SecBuf) : SecBuf :=
   if b.isLazy then { b with data := none, isLoaded := false } else b
 
+/-- `set_data` : `if ( translator->empty() )` (class dispatch of the generated condition) -/
+def setTrEmpty (c : Cls) (trEmpty : Bool) : Bool :=
+  match c with | .c32 => sec32_set_data_tr_empty trEmpty | .c64 => sec64_set_data_tr_empty trEmpty
+/-- `set_data` : `set_stream_size( (size_t)data_size )` -/
+def setStreamSize (c : Cls) (dataSize : BitVec 64) : BitVec 64 :=
+  match c with | .c32 => sec32_set_data_ss dataSize | .c64 => sec64_set_data_ss dataSize
+/-- `insert_data` : `if ( translator->empty() )` -/
+def insertTrEmpty (c : Cls) (trEmpty : Bool) : Bool :=
+  match c with | .c32 => sec32_insert_tr_empty trEmpty | .c64 => sec64_insert_tr_empty trEmpty
+/-- `insert_data` : `set_stream_size( get_stream_size() + (size_t)size )` -/
+def insertStreamSize (c : Cls) (streamSize n : BitVec 64) : BitVec 64 :=
+  match c with | .c32 => sec32_insert_ss streamSize n | .c64 => sec64_insert_ss streamSize n
+
 /-- tail of `set_data`: `set_size(data_size)` and the stream-size bookkeeping -/
 def setFinish (b : SecBuf) : SecBuf :=
   let b := b.setSize b.dataSize
-  if b.translatorEmpty then { b with streamSize := b.dataSize } else b
+  if setTrEmpty b.cls b.translatorEmpty then { b with streamSize := setStreamSize b.cls b.dataSize } else b
 
 /-- `set_data(raw, size)`; `raw = none` is a null pointer -/
 def setData (b : SecBuf) (raw : Option Bytes) (sz : BitVec 64) : M SecBuf :=
   let c32 := b.cls == .c32
   if (if c32 then sec32_set_data_not_nobits b.stype else sec64_set_data_not_nobits b.stype) then
     let n := if c32 then sec32_set_data_alloc sz else sec64_set_data_alloc sz
-    match raw with
-    | some r => do
-      let src ← rdRange "set_data/copy-src" (some r) 0 sz.toNat
-      let d ← wrRange "set_data/copy" (some (alloc n.toNat)) 0 src
-      pure (setFinish { b with data := d, dataSize := sz })
-    | none => pure (setFinish { b with data := some (alloc n.toNat), dataSize := 0 })
+    -- `nullptr != data.get() && nullptr != raw_data` (allocation failure is not modelled: `data.get()`
+    -- is non-null)
+    if (if c32 then sec32_set_data_copy false raw.isNone else sec64_set_data_copy false raw.isNone) then
+      match raw with
+      | some r => do
+        let src ← rdRange "set_data/copy-src" (some r) 0 sz.toNat
+        let d ← wrRange "set_data/copy" (some (alloc n.toNat)) 0 src
+        pure (setFinish { b with data := d, dataSize := sz })
+      | none => throw (.nullDeref "set_data/copy-src")
+    else pure (setFinish { b with data := some (alloc n.toNat), dataSize := 0 })
   else pure (setFinish b)
 
 /-- in-place branch: `copy_backward(d+pos, d+size, d+size+n); copy(raw, raw+n, d+pos)` -/
@@ -104,19 +121,22 @@ def insertGrow (b : SecBuf) (pos : Nat) (raw : Bytes) (nds : Nat) : M (Option By
   let tail ← rdRange "insert_data/copy-tail-src" b.data pos (b.size.toNat - pos)
   wrRange "insert_data/copy-tail" d (pos + raw.length) tail
 
-/-- `2*data_size + size` behind its three overflow guards (`none`: a guard fired) -/
+/-- `2*data_size + size` behind its three overflow guards and the allocation test (`none`: one fired) -/
 def growSize (c32 : Bool) (dataSize n : BitVec 64) : Option (BitVec 64) :=
   if (if c32 then sec32_insert_ovf_dbl dataSize else sec64_insert_ovf_dbl dataSize) then none else
   let nds := if c32 then sec32_insert_dbl dataSize else sec64_insert_dbl dataSize
   if (if c32 then sec32_insert_ovf_add n nds else sec64_insert_ovf_add n nds) then none else
   let nds := if c32 then sec32_insert_dbl_add nds n else sec64_insert_dbl_add nds n
   if (if c32 then sec32_insert_ovf_sizet nds else sec64_insert_ovf_sizet nds) then none else
+  -- `if ( nullptr != new_data ) … else return;` (allocation failure is not modelled: non-null)
+  if !(if c32 then sec32_insert_alloc_ok true else sec64_insert_alloc_ok true) then none else
   some nds
 
 /-- tail of `insert_data`: `set_size(new_size)` and the stream-size bookkeeping -/
 def insertFinish (b : SecBuf) (newSize n : BitVec 64) : SecBuf :=
   let b := b.setSize newSize
-  if b.translatorEmpty then { b with streamSize := b.streamSize + n } else b
+  if insertTrEmpty b.cls b.translatorEmpty then { b with streamSize := insertStreamSize b.cls b.streamSize n }
+  else b
 
 /-- `insert_data` after the residency step -/
 def insertBody (b : SecBuf) (pos : BitVec 64) (raw : Bytes) : M SecBuf :=
